@@ -124,6 +124,15 @@ def wide_first(x: WF, cb: Callable[[WF], None]) -> WF:
     return x
 def narrow_first(x: NF, cb: Callable[[NF], None]) -> NF:
     return x
+from typing import Tuple, Type
+def first3(a: AnyStr, b: AnyStr, extra: T) -> None: ...
+def last3(extra: T, a: AnyStr, b: AnyStr) -> None: ...
+def pick(x: Tuple[AnyStr, int], y: Tuple[AnyStr, int]) -> None: ...
+def pick2(x: Tuple[int, AnyStr], y: Tuple[int, AnyStr]) -> None: ...
+def mk(cls: Type[TB]) -> TB:
+    raise NotImplementedError
+def mkc(cls: Type[TC]) -> TC:
+    raise NotImplementedError
 def use() -> None:
     reveal_type(apply_none("a", takes_int))
     reveal_type(apply_none2(takes_int, "a"))
@@ -149,6 +158,16 @@ def use() -> None:
     reveal_type(two(1, takes_int))
     reveal_type(two(1, takes_str))
     reveal_type(two(True, takes_int))
+    reveal_type(first3("a", b"b", 1))
+    reveal_type(last3(1, "a", b"b"))
+    reveal_type(first3("a", "b", 1))
+    reveal_type(pick(("a", 1), (b"b", 2)))
+    reveal_type(pick2((1, "a"), (2, b"b")))
+    reveal_type(pick(("a", 1), ("b", 2)))
+    reveal_type(mk(str))
+    reveal_type(mk(bool))
+    reveal_type(mkc(bytes))
+    reveal_type(mkc(int))
 '''
     res = check_code(code)
     lines = code.split("\n")
@@ -163,8 +182,10 @@ def use() -> None:
     must_reject = ["fb(takes_bytes)", "fc(takes_bytes)", "fbx(1)", 'fcx(b"")', "two(1, takes_str)",
                    # no solution although the return annotation carries no type variable; constraint order must not matter
                    'apply_none("a", takes_int)', 'apply_none2(takes_int, "a")', 'same_none("a", b"b")', "wide_first(True, takes_bool)", "narrow_first(True, takes_bool)",
-                   "wide_first(1.5, takes_int)"]
-    must_accept = ["apply_none(1, takes_int)", "wide_first(1, takes_int)", "narrow_first(1, takes_int)"]
+                   "wide_first(1.5, takes_int)",
+                   # a conflict on one type variable must not be lost behind another one, wherever it sits; bounds collected from tuple members; Type[T]
+                   'first3("a", b"b", 1)', 'last3(1, "a", b"b")', 'pick(("a", 1), (b"b", 2))', 'pick2((1, "a"), (2, b"b"))', "mk(str)", "mkc(bytes)"]
+    must_accept = ["apply_none(1, takes_int)", "wide_first(1, takes_int)", "narrow_first(1, takes_int)", 'first3("a", "b", 1)', 'pick(("a", 1), ("b", 2))', "mk(bool)", "mkc(int)"]
     for m in must_accept:
         ln = next(i + 1 for i, l in enumerate(lines) if m in l)
         if ln in diagnosed:
